@@ -152,6 +152,10 @@ class Generator(TreeListener):
                     for a in ast.Symbol.ATTRIBUTES:
                         v = self.get_mx(getattr(ast_symbol, a))
                         if v is not None:
+                            if isinstance(v, list) and any(isinstance(x, ca.MX) for x in v):
+                                # Array literal with symbolic (parameter dependent)
+                                # elements: store as a single MX column vector.
+                                v = ca.vertcat(*v)
                             if isinstance(v, ca.DM) and all(x == (None,) for x in modelica_shape):
                                 # Scalar numeric type that behaves like an array.
                                 # Coerce to Python type to avoid interpretation
@@ -238,7 +242,8 @@ class Generator(TreeListener):
         self.entered_classes.pop()
 
     def exitArray(self, tree):
-        self.src[tree] = [self.src[e] for e in tree.values]
+        # Component references are resolved lazily, so use get_mx() rather than self.src
+        self.src[tree] = [self.get_mx(e) for e in tree.values]
 
     def exitPrimary(self, tree):
         self.src[tree] = tree.value
